@@ -10,13 +10,15 @@ these are the per-token writers, with the state they depend on made explicit:
   through it: tags, attributes, text, the output of sub-minifiers, `printTag`), `bwTotal` — after a sequence of writes.
 * `svgTextData` / `svgText` — the `TextToken` branch: `ReplaceMultipleWhitespaceAndEntities` with the XML tables
   (`Model.Xml.textRepl`), `TrimWhitespace`, `escapeCDEnd(·, bw.n)` (`Model.Xml.escCD`, the same function as in
-  `xml.go`), then — inside a `style` element — the sub-minifier `f` (dependency **by contract**: an arbitrary
-  function; `none` = `minify.ErrNotExist`, the data is written as it is).
+  `xml.go`); inside a `style` element (since /repo d582c28) the sub-minifier `f` runs on a copy BEFORE `escapeCDEnd` and
+  its result is used only if `isCharData` accepts it (`f` is an arbitrary function; `none` = `minify.ErrNotExist`).
 * `svgCData` — the `CDATAToken` branch: inside `style` the text is replaced by the sub-minifier's output between
-  `<![CDATA[` and `]]>`; then `EscapeCDATAVal` decides: text (white space collapsed and trimmed, `escapeCDEnd`)
+  `<![CDATA[` and `]]>` unless that output contains `]]>` (d582c28); then `EscapeCDATAVal` decides: text (white space collapsed and trimmed, `escapeCDEnd`)
   or the section as it is.
 * `svgAttrPre` — `TokenBuffer.read` of `svg/buffer.go` for a quoted attribute value; `svgAttrWrite` — the bytes
-  written for the (possibly rewritten) value: `xml.EscapeAttrVal`.
+  written for the (possibly rewritten) value: `xml.EscapeAttrVal`; `svgStyleAttr` — the `style` attribute: the
+  sub-minifier's result is used only if `isCharData` accepts it.
+* `isCharData` — the function of that name in `svg.go`: no `<`, every `&` starts `&name;`, `&#digits;` or `&#xhex;`.
 -/
 namespace Verif.Model.C09SvgText
 open Verif.Gen
@@ -50,24 +52,82 @@ def bwWrite (n : Nat) (b : List Char) : Nat :=
 /-- `bw.n` after a sequence of writes -/
 def bwTotal (n : Nat) (ws : List (List Char)) : Nat := ws.foldl bwWrite n
 
-/-- `TextToken` branch up to `escapeCDEnd`: `n` = `bw.n` -/
-def svgTextData (n : Nat) (d : List Char) : List Char := escCD n (trimWs (textRepl d))
+/-- `svg.go isCharData`, the bytes behind a `&`: length of the reference (with its `;`) when it is complete -/
+def refLen (r : List Char) : Option Nat :=
+  match r with
+  | '#' :: 'x' :: r2 =>
+    let ds := r2.takeWhile isHexDigit
+    if ds.isEmpty then none else
+    match r2.drop ds.length with
+    | ';' :: _ => some (ds.length + 3)
+    | _ => none
+  | '#' :: r2 =>
+    let ds := r2.takeWhile isDigit
+    if ds.isEmpty then none else
+    match r2.drop ds.length with
+    | ';' :: _ => some (ds.length + 2)
+    | _ => none
+  | _ =>
+    let nm := r.takeWhile refNameChar
+    match nm with
+    | [] => none
+    | c :: _ =>
+      if !refNameStart c then none else
+      match r.drop nm.length with
+      | ';' :: _ => some (nm.length + 1)
+      | _ => none
+where
+  refNameStart (c : Char) : Bool := ('a' ≤ c && c ≤ 'z') || ('A' ≤ c && c ≤ 'Z') || c == '_' || c == ':' || 128 ≤ c.toNat
+  refNameChar (c : Char) : Bool :=
+    ('a' ≤ c && c ≤ 'z') || ('A' ≤ c && c ≤ 'Z') || c == '_' || c == ':' || 128 ≤ c.toNat || isDigit c || c == '-' || c == '.'
+
+/-- `svg.go isCharData` (first argument: bytes still to skip, 0 at the call) -/
+def isCharDataGo : Nat → List Char → Bool
+  | _, [] => true
+  | k + 1, _ :: r => isCharDataGo k r
+  | 0, c :: r =>
+    if c == '<' then false
+    else if c == '&' then
+      match refLen r with
+      | some n => isCharDataGo n r
+      | none => false
+    else isCharDataGo 0 r
+
+def isCharData (b : List Char) : Bool := isCharDataGo 0 b
+
+/-- the sub-minifier's result where the host accepts it, else the data it was given -/
+def subChecked (f : List Char → Option (List Char)) (x : List Char) : List Char :=
+  match f x with
+  | some m => if isCharData m then m else x
+  | none => x
+
+/-- `TextToken` branch before the sub-minifier: entities and white space replaced, trimmed -/
+def svgTextPre (d : List Char) : List Char := trimWs (textRepl d)
+
+/-- `TextToken` branch outside `style`: `n` = `bw.n` -/
+def svgTextData (n : Nat) (d : List Char) : List Char := escCD n (svgTextPre d)
 
 /-- bytes written by the `TextToken` branch -/
 def svgText (style : Bool) (f : List Char → Option (List Char)) (n : Nat) (d : List Char) : List Char :=
-  let t := svgTextData n d
-  if style && !t.isEmpty then (match f t with | some m => m | none => t) else t
+  let t := svgTextPre d
+  escCD n (if style && !t.isEmpty then subChecked f t else t)
 
 def cdOpen : List Char := ['<', '!', '[', 'C', 'D', 'A', 'T', 'A', '[']
 def cdClose : List Char := [']', ']', '>']
 
-/-- `CDATAToken` branch, first part: data and text after the sub-minifier ran (inside `style`) -/
+/-- `CDATAToken` branch, first part: data and text after the sub-minifier ran (inside `style`; a result that contains
+`]]>` is not used) -/
 def svgCDataSub (style : Bool) (f : List Char → Option (List Char)) (data txt : List Char) : List Char × List Char :=
   if style then
     match f txt with
-    | some m => (cdOpen ++ m ++ cdClose, m)
+    | some m => if hasCdEndB m then (data, txt) else (cdOpen ++ m ++ cdClose, m)
     | none => (data, txt)
   else (data, txt)
+where
+  /-- `bytes.Contains(·, "]]>")` -/
+  hasCdEndB : List Char → Bool
+    | [] => false
+    | c :: r => (match c :: r with | ']' :: ']' :: '>' :: _ => true | _ => false) || hasCdEndB r
 
 /-- text written when `EscapeCDATAVal` chooses text -/
 def svgCDataText (n : Nat) (e : List Char) : List Char := escCD n (trimWs (collapseWs false e))
@@ -84,5 +144,9 @@ def svgAttrPre (body : List Char) : List Char := trimWs (replWsEnt XmlTables.ent
 
 /-- bytes written for an attribute value `v` (after the value rewrites of the attribute branch) -/
 def svgAttrWrite (v : List Char) : List Char := escapeAttrVal v
+
+/-- bytes written for a quoted `style` attribute value with content `body` (`f` = the inline CSS sub-minifier) -/
+def svgStyleAttr (f : List Char → Option (List Char)) (body : List Char) : List Char :=
+  svgAttrWrite (subChecked f (svgAttrPre body))
 
 end Verif.Model.C09SvgText
